@@ -111,10 +111,12 @@ def my_sblocks(S, me):
     return lambda b: And(S.whole('circuit')[b] == me, calls.inst_of(b, SB()))
 
 
-@contract('Circuit._init_sblocks_sync_1', qual=Q + '_init_sblocks_sync_1', modifies=INIT_EFFECTS, self_cls='Circuit')
+@contract('Circuit._init_sblocks_sync_1', qual=Q + '_init_sblocks_sync_1', modifies=INIT_EFFECTS, self_cls='Circuit',
+          traced=lambda a, st: rec('_init_sblocks_sync_1', to_val(a['self'], st)))
 def _sync1(c):
     me = c.z('self')
-    c.raises('OtherException', unchanged=False, label='initialisation_error_stops_the_start')
+    if not c.verifying: impose_callee_guarantees(c.S, c.T)
+    c.raises('OtherException', unchanged=False, label='initialisation_error_stops_the_start', impose=impose_callee_guarantees)
     b = Int('b!s1')
     steps0, steps1 = c.pre_whole('init_steps_completed'), c.post_whole('init_steps_completed')
     # (a block whose early initialisation failed inside an event delivered by another block's routine keeps a negative marker)
@@ -134,11 +136,13 @@ def init_sblock_env(S, T):
     return ForAll([b], Implies(S.whole('init_steps_completed')[b] >= 1, T.whole('init_steps_completed')[b] >= S.whole('init_steps_completed')[b]))
 
 
-@contract('Circuit._init_sblocks_sync_2', qual=Q + '_init_sblocks_sync_2', modifies=INIT_EFFECTS + ('st_items', 'q_set'), self_cls='Circuit')
+@contract('Circuit._init_sblocks_sync_2', qual=Q + '_init_sblocks_sync_2', modifies=INIT_EFFECTS + ('st_items', 'q_set'), self_cls='Circuit',
+          traced=lambda a, st: rec('_init_sblocks_sync_2', to_val(a['self'], st)))
 def _sync2(c):
     me = c.z('self')
-    c.raises('OtherException', unchanged=False, label='initialisation_error_stops_the_start')
-    c.raises('EdzedCircuitError', unchanged=False, label='a_block_is_still_uninitialised')
+    if not c.verifying: impose_callee_guarantees(c.S, c.T)
+    c.raises('OtherException', unchanged=False, label='initialisation_error_stops_the_start', impose=impose_callee_guarantees)
+    c.raises('EdzedCircuitError', unchanged=False, label='a_block_is_still_uninitialised', impose=impose_callee_guarantees)
     b = Int('b!s2')
     c.ensures('every_sequential_block_is_initialised', ForAll([b], Implies(my_sblocks(c.S, me)(b), c.post_whole('_output')[b] != Val.Undef)))
     q = c.pre('sblock_queue', me)
